@@ -1,0 +1,338 @@
+//! Verification hooks for compiled code blocks (only compiled with `--cfg boa_verif`).
+//!
+//! * [`CodeBlock::verif_dump`]: structured dump of a code block (tables, handlers, decoded
+//!   instructions with typed operands), recursively through function constants.
+//! * a thread-local log of every block produced by `ByteCompiler::finish`, so that blocks compiled
+//!   later by `eval` / `Function` are captured too.
+//! * a thread-local per-instruction depth event log (environment depth, binding-reference stack
+//!   length, value-stack depth above the register file).
+//!
+//! Everything is inert unless a harness turns the switches on.
+
+use std::cell::{Cell, RefCell};
+
+use boa_ast::scope::BindingLocatorScope;
+use serde_json::{Value, json};
+use thin_vec::ThinVec;
+
+use crate::{
+    Context,
+    vm::{
+        CodeBlock, Constant, Instruction, InstructionIterator,
+        opcode::{Address, IndexOperand, RegisterOperand},
+    },
+};
+
+/// Operand types of the instruction set, as seen by the dump.
+pub(crate) trait VerifOperand {
+    fn kind() -> &'static str;
+    fn verif_value(&self) -> Value;
+}
+
+impl VerifOperand for RegisterOperand {
+    fn kind() -> &'static str {
+        "reg"
+    }
+    fn verif_value(&self) -> Value {
+        json!(u32::from(*self))
+    }
+}
+
+impl VerifOperand for IndexOperand {
+    fn kind() -> &'static str {
+        "index"
+    }
+    fn verif_value(&self) -> Value {
+        json!(u32::from(*self))
+    }
+}
+
+impl VerifOperand for Address {
+    fn kind() -> &'static str {
+        "addr"
+    }
+    fn verif_value(&self) -> Value {
+        json!(u32::from(*self))
+    }
+}
+
+macro_rules! verif_operand_int {
+    ($($t:ident)*) => {
+        $(
+            impl VerifOperand for $t {
+                fn kind() -> &'static str {
+                    stringify!($t)
+                }
+                fn verif_value(&self) -> Value {
+                    json!(*self)
+                }
+            }
+        )*
+    };
+}
+
+verif_operand_int!(u8 u16 u32 i8 i16 i32);
+
+impl VerifOperand for u64 {
+    fn kind() -> &'static str {
+        "u64"
+    }
+    fn verif_value(&self) -> Value {
+        json!(self.to_string())
+    }
+}
+
+impl VerifOperand for f32 {
+    fn kind() -> &'static str {
+        "f32"
+    }
+    fn verif_value(&self) -> Value {
+        json!(self.to_bits().to_string())
+    }
+}
+
+impl VerifOperand for f64 {
+    fn kind() -> &'static str {
+        "f64"
+    }
+    fn verif_value(&self) -> Value {
+        json!(self.to_bits().to_string())
+    }
+}
+
+impl<T: VerifOperand> VerifOperand for ThinVec<T> {
+    fn kind() -> &'static str {
+        match T::kind() {
+            "reg" => "vec_reg",
+            "addr" => "vec_addr",
+            "index" => "vec_index",
+            "u32" => "vec_u32",
+            _ => "vec",
+        }
+    }
+    fn verif_value(&self) -> Value {
+        Value::Array(self.iter().map(VerifOperand::verif_value).collect())
+    }
+}
+
+/// The instruction set as compiled into this engine: `[{"op", "code", "fields": [[name, kind]..]}]`.
+#[must_use]
+pub fn opcode_signatures() -> Value {
+    Value::Array(
+        Instruction::verif_signatures()
+            .into_iter()
+            .map(|(op, code, fields)| {
+                json!({
+                    "op": op,
+                    "code": code,
+                    "fields": fields.iter().map(|(n, k)| json!([n, k])).collect::<Vec<_>>(),
+                })
+            })
+            .collect(),
+    )
+}
+
+impl CodeBlock {
+    /// Identity of this block (unique per thread).
+    #[must_use]
+    pub fn verif_id(&self) -> u64 {
+        self.debug_id
+    }
+
+    /// Dump of this block only (function constants are referenced by their id).
+    #[must_use]
+    pub fn verif_dump_block(&self) -> Value {
+        let flags = self.flags.get();
+        let constants: Vec<Value> = self
+            .constants
+            .iter()
+            .map(|c| match c {
+                Constant::String(_) => json!({"k": "string"}),
+                Constant::BigInt(_) => json!({"k": "bigint"}),
+                Constant::Function(f) => json!({"k": "function", "id": f.debug_id}),
+                Constant::Scope(s) => json!({
+                    "k": "scope",
+                    "scope_index": s.scope_index(),
+                    "num_bindings": s.num_bindings(),
+                    "non_local": s.num_bindings_non_local(),
+                    "function": s.is_function(),
+                    "all_local": s.all_bindings_local(),
+                }),
+            })
+            .collect();
+        let bindings: Vec<Value> = self
+            .bindings
+            .iter()
+            .map(|b| {
+                let (scope, index) = match b.scope() {
+                    BindingLocatorScope::GlobalObject => ("global_object", 0),
+                    BindingLocatorScope::GlobalDeclarative => ("global_declarative", 0),
+                    BindingLocatorScope::Stack(i) => ("stack", i),
+                };
+                json!({
+                    "scope": scope,
+                    "index": index,
+                    "binding_index": b.binding_index(),
+                    "name": b.name().to_std_string_escaped(),
+                })
+            })
+            .collect();
+        let handlers: Vec<Value> = self
+            .handlers
+            .iter()
+            .map(|h| {
+                json!({
+                    "start": h.start.as_u32(),
+                    "end": h.end.as_u32(),
+                    "handler": h.handler().as_u32(),
+                    "environment_count": h.environment_count,
+                })
+            })
+            .collect();
+        let mut code = Vec::new();
+        let mut iterator = InstructionIterator::new(&self.bytecode);
+        while let Some((pc, opcode, instruction)) = iterator.next() {
+            let (op, args) = instruction.verif_operands();
+            code.push(json!({
+                "pc": pc,
+                "next": iterator.pc(),
+                "op": op,
+                "code": opcode as u8,
+                "args": args.iter().map(|(n, k, v)| json!([n, k, v])).collect::<Vec<_>>(),
+            }));
+        }
+        json!({
+            "id": self.debug_id,
+            "name": self.name().to_std_string_escaped(),
+            "length": self.length,
+            "parameter_length": self.parameter_length,
+            "register_count": self.register_count,
+            "flags": {
+                "bits": flags.bits(),
+                "strict": self.strict(),
+                "has_binding_identifier": self.has_binding_identifier(),
+                "is_class_constructor": self.is_class_constructor(),
+                "in_class_field_initializer": self.in_class_field_initializer(),
+                "is_derived_constructor": self.is_derived_constructor(),
+                "is_async": self.is_async(),
+                "is_generator": self.is_generator(),
+                "has_prototype_property": self.has_prototype_property(),
+                "has_function_scope": self.has_function_scope(),
+            },
+            "this_mode": format!("{:?}", self.this_mode),
+            "bytecode_len": self.bytecode.bytes.len(),
+            "constants": constants,
+            "bindings": bindings,
+            "ic": self.ic.len(),
+            "handlers": handlers,
+            "global_lexs": self.global_lexs.iter().copied().collect::<Vec<u32>>(),
+            "global_vars": self.global_vars.iter().copied().collect::<Vec<u32>>(),
+            "global_fns": self
+                .global_fns
+                .iter()
+                .map(|g| json!([g.name_index, g.function_index]))
+                .collect::<Vec<_>>(),
+            "mapped_arguments_binding_indices": self
+                .mapped_arguments_binding_indices
+                .iter()
+                .map(|i| i.map_or(Value::Null, |i| json!(i)))
+                .collect::<Vec<_>>(),
+            "code": code,
+        })
+    }
+
+    /// Dump of this block and, recursively, of every function constant (this block first).
+    #[must_use]
+    pub fn verif_dump(&self) -> Vec<Value> {
+        let mut out = Vec::new();
+        self.verif_dump_into(&mut out);
+        out
+    }
+
+    fn verif_dump_into(&self, out: &mut Vec<Value>) {
+        out.push(self.verif_dump_block());
+        for c in &self.constants {
+            if let Constant::Function(f) = c {
+                f.verif_dump_into(out);
+            }
+        }
+    }
+}
+
+thread_local! {
+    static LOG_ENABLED: Cell<bool> = const { Cell::new(false) };
+    static IN_FINISH: Cell<bool> = const { Cell::new(false) };
+    static LOG: RefCell<Vec<Value>> = const { RefCell::new(Vec::new()) };
+    static DEPTH_EVENTS_MAX: Cell<usize> = const { Cell::new(0) };
+    static DEPTH_EVENTS: RefCell<Vec<[i64; 7]>> = const { RefCell::new(Vec::new()) };
+}
+
+/// Turns the log of blocks produced by `ByteCompiler::finish` on or off (and clears it).
+pub fn set_code_block_log(enabled: bool) {
+    LOG_ENABLED.with(|c| c.set(enabled));
+    LOG.with(|l| l.borrow_mut().clear());
+}
+
+/// Takes the logged block dumps (in order of compilation; nested functions come before their parents).
+/// Each entry is a [`CodeBlock::verif_dump_block`] value with the extra field `open_envs_at_finish`.
+#[must_use]
+pub fn take_code_block_log() -> Vec<Value> {
+    LOG.with(|l| std::mem::take(&mut *l.borrow_mut()))
+}
+
+/// `true` if the caller (`ByteCompiler::finish`) should finish through the logging path.
+pub(crate) fn code_block_log_enter() -> bool {
+    if !LOG_ENABLED.with(Cell::get) || IN_FINISH.with(Cell::get) {
+        return false;
+    }
+    IN_FINISH.with(|c| c.set(true));
+    true
+}
+
+pub(crate) fn code_block_log_exit(block: &CodeBlock, open_envs_at_finish: u32) {
+    IN_FINISH.with(|c| c.set(false));
+    let mut v = block.verif_dump_block();
+    if let Value::Object(m) = &mut v {
+        m.insert("open_envs_at_finish".into(), json!(open_envs_at_finish));
+    }
+    LOG.with(|l| l.borrow_mut().push(v));
+}
+
+/// Records up to `max` per-instruction depth events (0 turns recording off); clears the buffer.
+pub fn set_depth_events(max: usize) {
+    DEPTH_EVENTS_MAX.with(|c| c.set(max));
+    DEPTH_EVENTS.with(|l| l.borrow_mut().clear());
+}
+
+/// Takes the recorded events: `[frames, block id, pc, environment depth above env_fp,
+/// binding-reference stack length, value-stack length - rp - register_count, iterator stack length]`.
+#[must_use]
+pub fn take_depth_events() -> Vec<[i64; 7]> {
+    DEPTH_EVENTS.with(|l| std::mem::take(&mut *l.borrow_mut()))
+}
+
+#[inline]
+pub(crate) fn depth_event(context: &Context) {
+    let max = DEPTH_EVENTS_MAX.with(Cell::get);
+    if max == 0 {
+        return;
+    }
+    DEPTH_EVENTS.with(|l| {
+        let mut l = l.borrow_mut();
+        if l.len() >= max {
+            return;
+        }
+        let frame = context.vm.frame();
+        l.push([
+            context.vm.frames.len() as i64,
+            frame.code_block.debug_id as i64,
+            i64::from(frame.pc),
+            frame.environments.len() as i64 - i64::from(frame.env_fp),
+            frame.binding_stack.len() as i64,
+            context.vm.stack.verif_len() as i64
+                - i64::from(frame.rp)
+                - i64::from(frame.code_block.register_count),
+            frame.iterators.len() as i64,
+        ]);
+    });
+}
